@@ -115,6 +115,11 @@ def wrOp (w : Writer) (op : String) : Except IOErr (String × Writer) :=
       | some k, some v => do let w' ← w.writeBitarray k v; pure ("ok", w')
       | _, _ => pure ("bad-op", w)
     | none => pure ("bad-op", w)
+  | 'y' => match split2 arg ',' with
+    | some (a, b) => match a.toNat?, (if b == "-" then some [] else (b.splitOn ".").mapM (·.toNat?)) with
+      | some k, some bs => do let w' ← w.writeBytes k bs; pure ("ok", w')
+      | _, _ => pure ("bad-op", w)
+    | none => pure ("bad-op", w)
   | 'u' => match arg.toInt? with
     | some v => do let w' ← w.writeUint v; pure ("ok", w')
     | none => pure ("bad-op", w)
